@@ -94,9 +94,29 @@ def ref_keys(suite, version, secret_idx, phase, as_implemented=False):
         n = 48 if suite == "AES_256_GCM_SHA384" else 32
         keys = R.Keys(suite, SECRETS[secret_idx][:n], _ver(version))
         for _ in range(phase):
-            keys = keys.next(label=b"quic ku" if as_implemented else None)
+            keys = keys.next(label=probe()["v2_ku_label"] if as_implemented else None)
         _REFKEYS[k] = keys
     return _REFKEYS[k]
+
+
+_PROBE = {}
+
+
+def probe():
+    """Which of the two known deviations the tree under check has.  The Coq model and the model-side
+    key tables mirror the code AS IT IS (BUILDING.md); the two places where the pinned tree deviates
+    from the RFCs are switchable so that the correspondence stays meaningful on a tree in which they
+    are fixed.  The property oracles never use this: they always compare with the RFC behaviour."""
+    if not _PROBE:
+        from aioquic.quic.crypto import CryptoPair, next_key_phase
+        k = R.Keys(SUITE_NAMES[0], SECRETS[0][:32], R.V2)
+        p = CryptoPair()
+        p.recv.setup(cipher_suite=_aq_suite(SUITE_NAMES[0]), secret=SECRETS[0][:32], version=R.V2)
+        _PROBE["v2_ku_label"] = b"quic ku" if next_key_phase(p.recv).secret == k.next(label=b"quic ku").secret else None
+        hdr = bytes([0x43]) + bytes(8) + bytes.fromhex("80000005")
+        pkt = R.protect(k, hdr, bytes(30), 0x80000005)
+        _PROBE["signed_pn"] = p.recv.hp.remove(pkt, 9)[1] < 0
+    return _PROBE
 
 
 def aq_pair(case, phase):
@@ -188,7 +208,7 @@ def pt_encode(case):
     if kind == "remove":
         pkt = genuine_packet(case)
         keys = ref_keys(suite, ver, si, 0)
-        return [2] + tl(pkt) + [case["hlen"]] + mask_tab(keys, pkt, case["hlen"], case["hlen"] + 8)
+        return [2 if probe()["signed_pn"] else 12] + tl(pkt) + [case["hlen"]] + mask_tab(keys, pkt, case["hlen"], case["hlen"] + 8)
     if kind == "nonce":
         keys = ref_keys(suite, ver, si, 0)
         return [3] + tl(keys.iv) + [case["pn"]]
@@ -221,7 +241,7 @@ def pt_encode(case):
                 nonce = bytes(a ^ b for a, b in zip(keys.iv, (c % MOD64).to_bytes(12, "big")))
                 p = keys.open_raw(nonce, hdr, ct)
                 entries.append((akey(kid, nonce, hdr, ct), [] if p is None else [1] + list(p)))
-        return ([5] + tl(pkt) + [off, case["expected"], case["rphase"] & 1] + tl(cur.iv) + tl(nxt.iv)
+        return ([5 if probe()["signed_pn"] else 15] + tl(pkt) + [off, case["expected"], case["rphase"] & 1] + tl(cur.iv) + tl(nxt.iv)
                 + mask_tab(cur, pkt, off, off + 8) + tab(entries))
     raise ValueError(kind)
 
@@ -1042,7 +1062,7 @@ def run(ctx):
         es += list(range(600, 5000))
     pn.run(list(pn_exhaustive(es[: max(10, int(len(es) * min(1.0, ctx.budget_scale)))])))
     t0 = time.time()
-    cases = pt_gen(rng, ctx.n(4000, 60000))
+    cases = pt_gen(rng, ctx.n(10000, 60000))
     for i in range(0, len(cases), 2000):
         pt.run(cases[i:i + 2000])
     for kind in ("enc", "dec", "apply", "remove", "nonce"):
@@ -1051,6 +1071,8 @@ def run(ctx):
         pt.stats["outcome_histogram"]["%s/v%d/pnl%d/phase%s%s" % (c["suite"][:7], c["version"], c["pnl"], c["sphase"], "/corrupt" if c.get("corrupt") else "")] += 1
     st = run_connection(ctx, known, extra)
     extra["known_finding_cases"] = dict(known.hits)
+    extra["implementation_variant"] = {"v2_key_update_label": (probe()["v2_ku_label"] or b"quicv2 ku").decode(),
+                                       "truncated_pn_signed": probe()["signed_pn"]}
     extra["exhaustive_small_scope"] = "decode_packet_number: all 256 truncated values x %d expected values (8-bit encoding)" % len(es)
     cov = corr.merge_coverage(
         [pn, pt],
